@@ -2,71 +2,78 @@
   C10 — NVAR stores round-trip, and compaction keeps every live variable.
   Property theorems only; the lemmas live in FianoModel/Nvram/*.lean.
 
-  All statements are unbounded: they hold for every store `s` of the reference grammar
-  `Spec.NvStore` — any number of entries, chains of any length and interleaving, inline / indexed
-  GUIDs, ASCII / UCS-2 names (every Unicode scalar value), extended headers, dead and orphan
-  entries, any GUID table and free space, both erase polarities — that satisfies the decidable
-  well-formedness predicates of `Nvram/Spec.lean`:
+  All statements are unbounded: they hold for every store `S` of the RECURSIVE reference grammar
+  `Spec.NStore` (Nvram/SpecNested.lean) — any number of entries, chains of any length and
+  interleaving, inline / indexed GUIDs, ASCII / UCS-2 names (every Unicode scalar value), extended
+  headers, dead and orphan entries, any GUID table and free space, both erase polarities, and
+  VALUES THAT ARE THEMSELVES STORES, to any nesting depth — that satisfies the decidable
+  well-formedness predicates:
 
-    WF s   = `wf s`: field ranges, names without terminator inside, extended headers that hold what
-             the attribute bits promise, no nested store, a GUID table of ≤ 255 16-byte GUIDs that
-             holds exactly the referenced indices
-    WFC s  = WF s ∧ `linksOk s` (no link of a variable's chain points at another variable's entry;
-             no two such links point at the same offset) ∧ `fitsOk s` (head header + current content
-             of every variable fit the 16-bit Size field) ∧ `uniqueKeys s` (the current variables
-             have pairwise different (GUID, name))
+    WFN S   = `wfN S`: at every nesting level the one-level predicate `wf1` (field ranges, names
+              without terminator inside, extended headers that hold what the attribute bits promise, a
+              GUID table of ≤ 255 16-byte GUIDs that holds exactly the referenced indices), and per
+              value: a raw value does not begin with the NVAR signature; a store value sits in an
+              entry without extended header and has the erase polarity of its parent
+    WFCN S  = `wfcN S`: WFN and, at every level, `linksOk` (no link of a variable's chain points at
+              another variable's entry; no two such links point at the same offset), `fitsOk` (head
+              header + current content of every variable fit the 16-bit Size field), `uniqueKeys`
+              (the current variables have pairwise different (GUID, name))
+
+  `S.ser` serializes nested values first; `S.flat` is the one-level view (values as bytes) in the
+  grammar of Nvram/Spec.lean, for which the earlier one-level theorems (`…_flat`, hypotheses `WF`,
+  `WFC`: no value begins with the NVAR signature) are kept below.
 
   The model functions are those of `Nvram/Model.lean` (parseStore = uefi.NewNVarStore, asmStore =
-  visitors.Assemble, compact = visitors.NVRamCompact, invalidate = visitors.NVarInvalidate).
+  visitors.Assemble, compact = visitors.NVRamCompact, invalidate = visitors.NVarInvalidate; the
+  nested store of an entry is `nestedOf`, re-derived from the entry's content as Go does at parse
+  time).  The proofs for nested stores go by induction on the fuel of the nesting recursion, which
+  the byte length bounds: a nested store is at least 10 bytes shorter than the store holding it.
 -/
-import FianoModel.Nvram.LiveLemmas
+import FianoModel.Nvram.NestedFinal
+import FianoModel.Nvram.FuelNested
 import FianoModel.Nvram.FuelLemmas
 import FianoModel.Nvram.Tie
+import FianoModel.Nvram.TieLogic
 
 namespace Fiano.Nvram
 open Spec
 
 /-! ## C10.1 parse ∘ assemble is the identity on well-formed stores -/
 
-/-- The parser's result on a well-formed store, field by field: `expectStore s` lists for every
+/-- The parser's result on a well-formed store, field by field: `expectStore S.flat` lists for every
     entry its type (Full / Link / Data / Invalid link / Invalid), GUID, GUID index, name, offset,
     next offset, data offset and buffer, and the GUID store, free-space offset and GUID-store offset. -/
-theorem c10_parse_ser (s : NvStore) (h : WF s) : parseStore s.pol s.ser = .ok (expectStore s) :=
-  parseStore_ser s h
+theorem c10_parse_ser (S : NStore) (h : WFN S) : parseStore S.pol S.ser = .ok (expectStore S.flat) := by
+  have := parseStore_ser_parts S.flat (wfN_level S h).parts
+  rw [flat_pol] at this
+  exact this
 
-/-- **nv_roundtrip**: a well-formed store parses, the parsed tree assembles without error, and the
-    assembled bytes are the original bytes (Assemble leaves the whole in-memory store unchanged). -/
-theorem nv_roundtrip (s : NvStore) (h : WF s) :
-    ∃ st, parseStore s.pol s.ser = .ok st ∧ asmStore s.pol (depthFuel st) st = .ok st ∧ st.buf = s.ser := by
-  refine ⟨expectStore s, parseStore_ser s h, ?_, rfl⟩
-  exact asmStore_expect s h _
+/-- The nested store fiano attaches to a parsed entry (`NVar.NVarStore`): for the entry of a value
+    that is a store `n` of the grammar it is the parsed form of `n` (none when `n` has no entry: its
+    bytes are erased space); for every other entry there is none. -/
+theorem c10_parse_nested (S : NStore) (h : WFN S) (r : Row) (hr : r ∈ table S.flat) :
+    (∀ ns, nestedOf S.pol (expectNVar S.pol S.guids r) = some ns →
+      ∃ n ∈ S.subs, ns = expectStore n.flat ∧ r.entry.content = n.ser) ∧
+    (∀ n ∈ S.subs, r.entry.content = n.ser → (∀ a nx b, r.entry ≠ .dead a nx b) →
+      nestedOf S.pol (expectNVar S.pol S.guids r) = if n.entries = [] then none else some (expectStore n.flat)) :=
+  nested_of_rows S h r hr
+
+/-- **nv_roundtrip**: a well-formed store — values that are stores included, to any depth — parses,
+    the parsed tree assembles without error (the Assemble visitor descends into every nested store
+    first), and the assembled bytes are the original bytes (Assemble leaves the whole in-memory
+    store unchanged). -/
+theorem nv_roundtrip (S : NStore) (h : WFN S) :
+    ∃ st, parseStore S.pol S.ser = .ok st ∧ asmStore S.pol (depthFuel st) st = .ok st ∧ st.buf = S.ser := by
+  refine ⟨expectStore S.flat, c10_parse_ser S h, ?_, rfl⟩
+  exact asmStoreN _ S h (by simp [depthFuel, expectStore, NStore.ser])
 
 /-- the model's abstract view of the parsed store is the specification's list of current variables -/
-theorem c10_live_parse (s : NvStore) (h : WF s) :
-    ∃ st, parseStore s.pol s.ser = .ok st ∧ live st = Spec.live s := by
-  refine ⟨expectStore s, parseStore_ser s h, ?_⟩
-  have hp := wf_parts s h
-  apply live_expect
-  intro d hd r hr
-  have hok := hp.ok d.entry (row_entry_mem s d hd)
-  cases he : d.entry with
-  | var f g n v x nx =>
-    rw [he] at hok hr
-    simp only [Entry.ok, Bool.and_eq_true] at hok
-    simp only [Entry.next] at hr
-    subst hr
-    have := hok.2.2
-    simp only [okNext, Bool.and_eq_true, decide_eq_true_eq] at this
-    exact this.1
-  | data f v x nx =>
-    rw [he] at hok hr
-    simp only [Entry.ok, Bool.and_eq_true] at hok
-    simp only [Entry.next] at hr
-    subst hr
-    have := hok.2.2
-    simp only [okNext, Bool.and_eq_true, decide_eq_true_eq] at this
-    exact this.1
-  | dead a nx b => rw [he] at hr; simp [Entry.next] at hr
+theorem c10_live_parse (S : NStore) (h : WFN S) :
+    ∃ st, parseStore S.pol S.ser = .ok st ∧ live st = Spec.live S.flat := by
+  refine ⟨expectStore S.flat, c10_parse_ser S h, ?_⟩
+  exact live_expect S.flat (pos_of_parts S.flat (wfN_level S h).parts)
+
+/-! ## C10.1b termination: neither recursion ever runs out of fuel, on ANY byte string -/
 
 /-- The entry walk of `NewNVarStore` (repaired code) terminates on EVERY byte string and every
     polarity, well-formed or hostile: every parsed entry consumes `Header.Size ≥ 10` bytes, so the
@@ -75,10 +82,150 @@ theorem c10_live_parse (s : NvStore) (h : WF s) :
 theorem c10_parse_terminates (pol : Nat) (b : Bytes) : parseStore pol b ≠ .error .fuel :=
   parseStore_not_fuel pol b
 
+/-- The nesting recursion of the Assemble visitor never exhausts its fuel `depthFuel = |store| + 1`
+    on the store parsed from ANY byte string (hostile included): the content of a parsed entry is at
+    least 10 bytes shorter than the buffer it was parsed from, and a nested store is parsed from the
+    content. -/
+theorem c10_asm_terminates (pol : Nat) (b : Bytes) (st : Store) (h : parseStore pol b = .ok st) :
+    asmStore pol (depthFuel st) st ≠ .error .fuel :=
+  asmStore_not_fuel pol _ st (by simp [depthFuel]) (parsed_small pol b st h)
+
+/-- The same for `nvram-compact`, also after invalidating any set of names. -/
+theorem c10_compact_terminates (pol : Nat) (b : Bytes) (st : Store) (K : Bytes → Bool)
+    (h : parseStore pol b = .ok st) : compact pol (depthFuel st) (invalK K st) ≠ .error .fuel := by
+  apply compact_not_fuel pol _ _ (by simp [depthFuel])
+  intro v hv
+  simp only [invalK, List.mem_map] at hv
+  obtain ⟨w, hw, rfl⟩ := hv
+  rw [markK_content]
+  exact parsed_small pol b st h w hw
+
+/-- general form: any in-memory store, any fuel above the length of every entry content -/
+theorem c10_fuel_general (pol d : Nat) (st : Store) (hd : 0 < d) (h : ∀ v ∈ st.entries, (content v).length < d) :
+    asmStore pol d st ≠ .error .fuel ∧ compact pol d st ≠ .error .fuel :=
+  ⟨asmStore_not_fuel pol d st hd h, compact_not_fuel pol d st hd h⟩
+
 /-! ## C10.2 compaction -/
 
-/-- compaction after invalidating the names selected by `K` (general form of the two theorems below) -/
-theorem c10_compact_general (K : Bytes → Bool) (s : NvStore) (h : WFC s) :
+/-- compaction after invalidating the names selected by `K` (general form of the two theorems
+    below).  `compactN K S` is the compaction carried out on the grammar (Nvram/CompactNDefs.lean),
+    `liveC K S` the current variables of `S` that were not invalidated, as (GUID, name) ↦ content with
+    nested stores in compacted form, `deepLive` the tree of current variables. -/
+theorem c10_compact_general (K : Bytes → Bool) (S : NStore) (h : WFCN S) :
+    ∃ st', compact S.pol (depthFuel (expectStore S.flat)) (invalK K (expectStore S.flat)) = .ok st' ∧
+      st'.buf = (compactN K S).ser ∧
+      st'.buf.length = S.ser.length ∧
+      (∀ v ∈ st'.entries, v.type = .full) ∧
+      st'.entries.map (fun v => ((v.guid, v.name), content v)) = liveC K S ∧
+      live st' = liveC K S ∧
+      (liveC K S).map (·.1) = ((Spec.live S.flat).filter (fun kv => !K kv.1.2)).map (·.1) ∧
+      ((live st').map (·.1)).Nodup ∧
+      parseStore S.pol st'.buf = .ok st' ∧
+      WFN (compactN K S) ∧ allTerminal (compactN K S) = true ∧
+      (compactN K S).deepLive = S.deepLive.filter (fun kv => !K kv.1.2) := by
+  obtain ⟨hcomp, hwfC, hlen, hpolC, _, _⟩ := compactN_main (depthFuel (expectStore S.flat)) K S h
+    (by simp [depthFuel, expectStore, NStore.ser])
+  have hc := wfcN_level S h
+  obtain ⟨hfull, hents, hlive⟩ := expect_allvar (compactN K S).flat (compactN_flat_allvar K S)
+  have hvars := compactN_vars K S h
+  have hkeys := liveC_keys K S
+  refine ⟨expectStore (compactN K S).flat, hcomp, rfl, hlen, hfull, by rw [hents, hvars], by rw [hlive, hvars],
+    hkeys, ?_, ?_, hwfC, allTerminal_compactN _ K S (Nat.lt_succ_self _),
+    deepLive_compactN _ K S h (Nat.lt_succ_self _)⟩
+  · rw [hlive, hvars, hkeys]
+    have hnd := nodupB_nodup _ hc.uniq
+    exact (List.Sublist.map _ (List.filter_sublist)).nodup hnd
+  · have := c10_parse_ser (compactN K S) hwfC
+    rw [hpolC] at this
+    exact this
+
+/-- **compact_spec** (C10): for a well-formed store — nested stores included, to any depth —
+    nvram-compact succeeds and the compacted store
+    * has the same length, and its bytes are the serialization of the grammar-level compaction,
+    * consists of Full entries only (no link, data-only, invalid or superseded entry is left), and the
+      same holds inside every nested store at any depth (`allTerminal`),
+    * its entries, read as (GUID, name) ↦ content, are exactly the current variables of the original
+      store — one entry per variable, carrying the most recent value (a nested store: in compacted
+      form) and the name and GUID of the head of its chain —, and no two of them share (GUID, name),
+    * has the same abstract meaning: the TREE of current variables `deepLive` is unchanged,
+    * is well formed again, and parsing its bytes yields exactly the in-memory compacted store. -/
+theorem compact_spec (S : NStore) (h : WFCN S) :
+    ∃ st st', parseStore S.pol S.ser = .ok st ∧ compact S.pol (depthFuel st) st = .ok st' ∧
+      st'.buf = (compactN (fun _ => false) S).ser ∧
+      st'.buf.length = S.ser.length ∧
+      (∀ v ∈ st'.entries, v.type = .full) ∧ allTerminal (compactN (fun _ => false) S) = true ∧
+      st'.entries.map (fun v => ((v.guid, v.name), content v)) = liveC (fun _ => false) S ∧
+      (liveC (fun _ => false) S).map (·.1) = (live st).map (·.1) ∧
+      ((live st').map (·.1)).Nodup ∧
+      (compactN (fun _ => false) S).deepLive = S.deepLive ∧
+      WFN (compactN (fun _ => false) S) ∧
+      parseStore S.pol st'.buf = .ok st' := by
+  obtain ⟨st', hc, hbuf, hlen, hfull, hvars, _, hkeys, hnd, hparse, hwf, hterm, hdeep⟩ :=
+    c10_compact_general (fun _ => false) S h
+  obtain ⟨st, hps, hls⟩ := c10_live_parse S (wfcN_wfN S h)
+  have hst : st = expectStore S.flat := by
+    have := c10_parse_ser S (wfcN_wfN S h)
+    rw [this] at hps; injection hps with hps; exact hps.symm
+  subst hst
+  rw [invalK_none] at hc
+  have hid : (Spec.live S.flat).filter (fun kv => !(fun _ => false) kv.1.2) = Spec.live S.flat := by simp
+  rw [hid] at hkeys
+  have hid2 : S.deepLive.filter (fun kv => !(fun _ => false) kv.1.2) = S.deepLive := by simp
+  rw [hid2] at hdeep
+  exact ⟨expectStore S.flat, st', c10_parse_ser S (wfcN_wfN S h), hc, hbuf, hlen, hfull, hterm, hvars,
+    by rw [hkeys, hls], hnd, hdeep, hwf, hparse⟩
+
+/-- **invalidate_compact**: invalidating the variable named `n` (every top-level entry of that name,
+    as `invalidate_nvar n` does — it does not descend into nested stores) and then compacting removes
+    exactly the variables of that name — all their versions — and nothing else: the compacted store
+    holds the other current variables (nested stores compacted), one Full entry each, has the same
+    length, the tree of current variables is the original's minus the variables named `n`, and it
+    re-parses to itself. -/
+theorem invalidate_compact (S : NStore) (h : WFCN S) (n : Bytes) :
+    ∃ st st', parseStore S.pol S.ser = .ok st ∧ compact S.pol (depthFuel st) (invalidate n st) = .ok st' ∧
+      st'.buf.length = S.ser.length ∧
+      (∀ v ∈ st'.entries, v.type = .full) ∧
+      st'.entries.map (fun v => ((v.guid, v.name), content v)) = liveC (fun x => decide (x = n)) S ∧
+      (liveC (fun x => decide (x = n)) S).map (·.1) = ((live st).filter (fun kv => kv.1.2 ≠ n)).map (·.1) ∧
+      ((live st').map (·.1)).Nodup ∧
+      (compactN (fun x => decide (x = n)) S).deepLive = S.deepLive.filter (fun kv => kv.1.2 ≠ n) ∧
+      st'.buf = (compactN (fun x => decide (x = n)) S).ser ∧ WFN (compactN (fun x => decide (x = n)) S) ∧
+      parseStore S.pol st'.buf = .ok st' := by
+  obtain ⟨st', hc, hbuf, hlen, hfull, hvars, _, hkeys, hnd, hparse, hwf, _, hdeep⟩ :=
+    c10_compact_general (fun x => decide (x = n)) S h
+  obtain ⟨st, hps, hls⟩ := c10_live_parse S (wfcN_wfN S h)
+  have hst : st = expectStore S.flat := by
+    have := c10_parse_ser S (wfcN_wfN S h)
+    rw [this] at hps; injection hps with hps; exact hps.symm
+  subst hst
+  rw [← invalidate_eq] at hc
+  have hf : (Spec.live S.flat).filter (fun kv => !(fun x => decide (x = n)) kv.1.2)
+      = (live (expectStore S.flat)).filter (fun kv => kv.1.2 ≠ n) := by
+    rw [hls]; congr 1; funext kv; simp
+  rw [hf] at hkeys
+  have hd : S.deepLive.filter (fun kv => !(fun x => decide (x = n)) kv.1.2)
+      = S.deepLive.filter (fun kv => kv.1.2 ≠ n) := by
+    congr 1; funext kv; simp
+  rw [hd] at hdeep
+  exact ⟨expectStore S.flat, st', c10_parse_ser S (wfcN_wfN S h), hc, hlen, hfull, hvars, hkeys, hnd, hdeep,
+    hbuf, hwf, hparse⟩
+
+/-! ## the one-level theorems (stores without nested stores, grammar of Nvram/Spec.lean) -/
+
+theorem c10_parse_ser_flat (s : NvStore) (h : WF s) : parseStore s.pol s.ser = .ok (expectStore s) :=
+  parseStore_ser s h
+
+theorem c10_live_parse_flat (s : NvStore) (h : WF s) :
+    ∃ st, parseStore s.pol s.ser = .ok st ∧ live st = Spec.live s :=
+  ⟨expectStore s, parseStore_ser s h, live_expect s (pos_of_parts s (wf_parts s h))⟩
+
+theorem nv_roundtrip_flat (s : NvStore) (h : WF s) :
+    ∃ st, parseStore s.pol s.ser = .ok st ∧ asmStore s.pol (depthFuel st) st = .ok st ∧ st.buf = s.ser := by
+  refine ⟨expectStore s, parseStore_ser s h, ?_, rfl⟩
+  exact asmStore_expect s h _
+
+/-- one-level form of `c10_compact_general` -/
+theorem c10_compact_general_flat (K : Bytes → Bool) (s : NvStore) (h : WFC s) :
     ∃ st', compact s.pol (depthFuel (expectStore s)) (invalK K (expectStore s)) = .ok st' ∧
       st'.buf.length = s.ser.length ∧
       (∀ v ∈ st'.entries, v.type = .full) ∧
@@ -91,7 +238,7 @@ theorem c10_compact_general (K : Bytes → Bool) (s : NvStore) (h : WFC s) :
   have hl := links_of_wf s hwf hlk
   obtain ⟨hparts, hlen, _⟩ := compactG_wf K s hp hl hfit
   obtain ⟨hlive, hvars, hfull⟩ := live_compactG K s hp
-  refine ⟨expectStore (compactG K s), compact_expect K s hp hl hfit _, hlen, hfull, ?_, ?_, ?_, ?_⟩
+  refine ⟨expectStore (compactG K s), compact_expect K s hp hl hfit (wf_plain s hwf) _, hlen, hfull, ?_, ?_, ?_, ?_⟩
   · rw [hvars, liveK_filter]
   · rw [hlive, liveK_filter]
   · rw [hlive, liveK_filter]
@@ -107,7 +254,7 @@ theorem c10_compact_general (K : Bytes → Bool) (s : NvStore) (h : WFC s) :
       GUID of the head of its chain —, and no two of them share (GUID, name),
     * has the same abstract view `live` as the parsed original,
     * and parsing its bytes again yields exactly the in-memory compacted store. -/
-theorem compact_spec (s : NvStore) (h : WFC s) :
+theorem compact_spec_flat (s : NvStore) (h : WFC s) :
     ∃ st st', parseStore s.pol s.ser = .ok st ∧ compact s.pol (depthFuel st) st = .ok st' ∧
       st'.buf.length = s.ser.length ∧
       (∀ v ∈ st'.entries, v.type = .full) ∧
@@ -115,8 +262,8 @@ theorem compact_spec (s : NvStore) (h : WFC s) :
       ((live st').map (·.1)).Nodup ∧
       live st' = live st ∧
       parseStore s.pol st'.buf = .ok st' := by
-  obtain ⟨st', hc, hlen, hfull, hvars, hlive, hnd, hparse⟩ := c10_compact_general (fun _ => false) s h
-  obtain ⟨st, hps, hls⟩ := c10_live_parse s h.1
+  obtain ⟨st', hc, hlen, hfull, hvars, hlive, hnd, hparse⟩ := c10_compact_general_flat (fun _ => false) s h
+  obtain ⟨st, hps, hls⟩ := c10_live_parse_flat s h.1
   have hst : st = expectStore s := by
     have := parseStore_ser s h.1
     rw [this] at hps; injection hps with hps; exact hps.symm
@@ -130,7 +277,7 @@ theorem compact_spec (s : NvStore) (h : WFC s) :
     `invalidate_nvar n` does) and then compacting removes exactly the variables of that name — all
     their versions — and nothing else: the compacted store holds the other current variables
     unchanged, one Full entry each, has the same length, and re-parses to itself. -/
-theorem invalidate_compact (s : NvStore) (h : WFC s) (n : Bytes) :
+theorem invalidate_compact_flat (s : NvStore) (h : WFC s) (n : Bytes) :
     ∃ st st', parseStore s.pol s.ser = .ok st ∧ compact s.pol (depthFuel st) (invalidate n st) = .ok st' ∧
       st'.buf.length = s.ser.length ∧
       (∀ v ∈ st'.entries, v.type = .full) ∧
@@ -138,8 +285,8 @@ theorem invalidate_compact (s : NvStore) (h : WFC s) (n : Bytes) :
       live st' = (live st).filter (fun kv => kv.1.2 ≠ n) ∧
       ((live st').map (·.1)).Nodup ∧
       parseStore s.pol st'.buf = .ok st' := by
-  obtain ⟨st', hc, hlen, hfull, hvars, hlive, hnd, hparse⟩ := c10_compact_general (fun x => decide (x = n)) s h
-  obtain ⟨st, hps, hls⟩ := c10_live_parse s h.1
+  obtain ⟨st', hc, hlen, hfull, hvars, hlive, hnd, hparse⟩ := c10_compact_general_flat (fun x => decide (x = n)) s h
+  obtain ⟨st, hps, hls⟩ := c10_live_parse_flat s h.1
   have hst : st = expectStore s := by
     have := parseStore_ser s h.1
     rw [this] at hps; injection hps with hps; exact hps.symm
@@ -178,5 +325,52 @@ example : (Spec.live sampleStore).map (fun kv => (kv.1.2, kv.2))
     = [ ([79, 228, 184, 173, 240, 159, 152, 128, 114], [9, 0, 7, 7, 7, 7, 7, 7, 7, 7, 11, 0]),
         ([86, 97, 114], [0xFF, 0xFF, 1, 0x5A, 4, 0]),
         ([75], []) ] := by decide
+
+/-! ### nested stores: a store of depth 3 with link chains at every level -/
+
+set_option maxRecDepth 8000
+
+/-- level 3 -/
+def nestedInner2 : NStore := .mk 0xFF
+  [ .var 0 (.inline (List.replicate 16 0x33)) (.ascii [90]) (.raw [7, 7]) none none ] 2 []   -- "Z"
+
+/-- level 2: "In" superseded by a data-only entry whose value is the level-3 store, "W" superseded
+    by a plain data-only entry (a link inside the nested store), a dead and an orphan entry, one
+    indexed GUID -/
+def nestedInner1 : NStore := .mk 0xFF
+  [ .var 1 (.index 0) (.ascii [73, 110]) (.raw [1]) none (some 15),            -- "In" at 0, next version at 15
+    .data 0 (.store nestedInner2) none none,                                    -- at 15: current "In" = a store
+    .var 0 (.inline (List.replicate 16 0x55)) (.ascii [87]) (.raw [5]) none (some 29),   -- "W" at 57, next at 86
+    .data 1 (.raw [6]) none none,                                               -- at 86: current "W"
+    .dead 0x06 0xFFFFFF [1, 2],
+    .data 0 (.raw [8]) none none ]                                              -- orphan
+  4 [List.replicate 16 0x44]
+
+/-- level 1: "V" superseded by a data-only entry whose value is the level-2 store (245 bytes in all) -/
+def nestedSample : NStore := .mk 0xFF
+  [ .var 1 (.index 0) (.ascii [86]) (.raw [0xAA]) none (some 56),               -- "V" at 0, next version at 56
+    .var 0 (.inline (List.replicate 16 0xAB)) (.ucs2 [79]) (.raw [9])
+      (some { attrs := 0, body := List.replicate 8 7 }) none,                    -- "O"
+    .data 0 (.store nestedInner1) none none,                                    -- at 56: current "V" = a store
+    .dead 0x06 0xFFFFFF [1, 2, 3, 4] ]
+  9 [List.replicate 16 0x11]
+
+example : WFCN nestedSample := by decide
+
+/-- its tree of current variables, as (path of names, value): O, V/In/Z, V/W -/
+example : leavesL [] nestedSample.deepLive
+    = [ ([[79]], [9, 0, 7, 7, 7, 7, 7, 7, 7, 7, 11, 0]), ([[86], [73, 110], [90]], [7, 7]), ([[86], [87]], [6]) ] := by
+  decide
+
+/-- the same after compaction on the grammar; after invalidating "O" first it is gone, alone -/
+example : leavesL [] (compactN (fun _ => false) nestedSample).deepLive = leavesL [] nestedSample.deepLive := by
+  decide
+
+example : leavesL [] (compactN (fun x => decide (x = [79])) nestedSample).deepLive
+    = [ ([[86], [73, 110], [90]], [7, 7]), ([[86], [87]], [6]) ] := by decide
+
+/-- top level after compaction: "O" with its 12 content bytes, "V" with a 140-byte (compacted) store -/
+example : (liveC (fun _ => false) nestedSample).map (fun kv => (kv.1.2, kv.2.length)) = [([79], 12), ([86], 140)] := by
+  decide
 
 end Fiano.Nvram
